@@ -91,8 +91,11 @@ theorem decompressEd_some {y s : Fp} {Q : Ed} (h : decompressEd y s = some Q) :
     subst hQ
     refine ⟨rfl, ?_⟩
     have hneg := sqrtRatioFp_not_isNeg (y ^ 2 - 1) (d * y ^ 2 + 1)
-    generalize (sqrtRatioFp (y ^ 2 - 1) (d * y ^ 2 + 1)).2 = r at hneg
-    show (if s = 0 then r else -r) ≠ 0 → (fpIsNeg (if s = 0 then r else -r) ↔ s ≠ 0)
+    show (if s = 0 then (sqrtRatioFp (y ^ 2 - 1) (d * y ^ 2 + 1)).2
+        else -(sqrtRatioFp (y ^ 2 - 1) (d * y ^ 2 + 1)).2) ≠ 0 →
+      (fpIsNeg (if s = 0 then (sqrtRatioFp (y ^ 2 - 1) (d * y ^ 2 + 1)).2
+        else -(sqrtRatioFp (y ^ 2 - 1) (d * y ^ 2 + 1)).2) ↔ s ≠ 0)
+    generalize (sqrtRatioFp (y ^ 2 - 1) (d * y ^ 2 + 1)).2 = r at hneg ⊢
     by_cases hs : s = 0
     · simp only [if_pos hs]; intro _
       exact ⟨fun h' => absurd h' hneg, fun h' => absurd hs h'⟩
@@ -226,9 +229,12 @@ theorem decompress_rel (y s : Fp) : OptRel RepL (decompressEd y s) (cDecompress 
   rw [h1]
   simp only [List.getD_cons_zero, List.getD_cons_succ]
   rcases sqrtRatioFp_flag (y ^ 2 - 1) (d * y ^ 2 + 1) with h0 | h0
-  · rw [dif_neg (by rw [h0]; exact zero_ne_one), if_neg (by rw [h0]; exact fun h => h rfl)]
+  · have hn1 : ¬ (sqrtRatioFp (y ^ 2 - 1) (d * y ^ 2 + 1)).1 = 1 := by rw [h0]; exact zero_ne_one
+    have hn0 : ¬ (sqrtRatioFp (y ^ 2 - 1) (d * y ^ 2 + 1)).1 ≠ 0 := fun h => h h0
+    rw [dif_neg hn1, if_neg hn0]
     trivial
-  · rw [dif_pos h0, if_pos (by rw [h0]; exact one_ne_zero)]
+  · have hne : (sqrtRatioFp (y ^ 2 - 1) (d * y ^ 2 + 1)).1 ≠ 0 := by rw [h0]; exact one_ne_zero
+    rw [dif_pos h0, if_pos hne]
     rw [AlgEdwards.decompress_step_2_sh_ok, decompress_step_2_sh_eq]
     refine ⟨_, _, _, _, rfl, one_ne_zero, ?_, ?_, ?_⟩
     · show (if s = 0 then _ else _) = _ / 1; rw [div_one]
